@@ -33,8 +33,9 @@ template<unsigned N> static double jacobi_error_complex (const Matrix<N,N,cd>& A
 static uint64_t lcg_state = 12345;
 static double rnd () { lcg_state = lcg_state * 6364136223846793005ULL + 1442695040888963407ULL; return double ((lcg_state >> 33) % 2000001) / 1e6 - 1.0; }
 static const char* class_name[] = { "dense", "nearly diagonal ascending 1e-12", "nearly diagonal ascending 1e-9", "nearly diagonal ascending 1e-6", "nearly diagonal ascending 1e-3",
-  "nearly diagonal descending 1e-9", "diagonally dominant 0.1", "identity plus rank one (repeated eigenvalues)", "rank one", "small integers", "zero", "diagonal ascending", "equal diagonal, small off-diagonal" };
-static const int n_class = 13;
+  "nearly diagonal descending 1e-9", "diagonally dominant 0.1", "identity plus rank one (repeated eigenvalues)", "rank one", "small integers", "zero", "diagonal ascending", "equal diagonal, small off-diagonal",
+  "dense block plus a decoupled pair of equal diagonal entries", "two zero rows and columns", "dense block plus a decoupled triple of equal diagonal entries" };
+static const int n_class = 16;
 // entry (i,j), i <= j, of structure class cls; im receives the imaginary part of off-diagonal entries
 template<unsigned N> static void make_class (int cls, double re[N][N], double im[N][N])
 {
@@ -52,6 +53,9 @@ template<unsigned N> static void make_class (int cls, double re[N][N], double im
     case 10: x = 0; y = 0; break;
     case 11: x = (i == j) ? double (i + 1) : 0.0; y = 0; break;
     case 12: x = (i == j) ? 1.0 : 1e-7 * x; y *= 1e-7; break;
+    case 13: if (N >= 3 && (i >= N-2 || j >= N-2)) { x = (i == j) ? 7.0 : 0.0; y = 0; } else { x = double (int (4 * x)) + (i == j ? 3.0 : 0.0); y = (i == j) ? 0.0 : double (int (3 * y)); } break;
+    case 14: if (N >= 3 && (i >= N-2 || j >= N-2)) { x = 0; y = 0; } else { x = double (int (4 * x)) + (i == j ? 2.0 : 0.0); y = (i == j) ? 0.0 : double (int (3 * y)); } break;
+    case 15: if (N >= 4 && (i >= N-3 || j >= N-3)) { x = (i == j) ? -2.0 : 0.0; y = 0; } else { x = double (int (4 * x)) + (i == j ? 1.0 : 0.0); y = (i == j) ? 0.0 : double (int (3 * y)); } break;
     }
     re[i][j] = re[j][i] = x; im[i][j] = y; im[j][i] = -y; }
 }
